@@ -100,6 +100,20 @@ def soak_case(rng, n_pages):
     return {"engine": "history", "cfg": cfg, "ops": ops, "audit_every": len(ops), "aseed": rng.getrandbits(32), "soak": n_pages}
 
 
+def sorted_chain_case(rng, n):
+    """n sibling pages submitted in ascending (or descending) stem order: the sibling tree degenerates
+    into a chain of n nodes, every insertion walks it (thresholds on walk lengths, depth, recursion)."""
+    head = b"s:http|h:com|h:chain|"
+    pages = [head + b"p:%05d|" % i for i in range(n)]
+    if rng.random() < 0.5:
+        pages.reverse()
+    ops = [{"op": "add_pages", "lrus": pages[i:i + 50], "crawled": bool((i // 50) % 2), "as_str": False} for i in range(0, n, 50)]
+    ops.append({"op": "add_page", "lru": pages[-1], "crawled": True, "as_str": False})  # a deep known page again
+    ops.append({"op": "add_page", "lru": pages[n // 2], "crawled": False, "as_str": False})
+    cfg = {"backend": rng.choice(["file", "memory"]), "default": "domain", "encoding": "utf-8", "overwrite": False, "rules": []}
+    return {"engine": "history", "cfg": cfg, "ops": ops, "audit_every": len(ops), "aseed": rng.getrandbits(32), "sorted_chain": n}
+
+
 def wide_case(rng, n_sites):
     """Many webentities in one index (ids well past 256, CPython's small-integer cache and any
     one-byte assumption): n_sites sites, each with an http and an https page linking to each other
@@ -269,6 +283,8 @@ def run_shard(prop, spec, tier, seed, shard, nshards, scratch):
         extra.append(("soak", tp["soak"], None))
     if tp.get("wide") and shard == nshards - 1:
         extra.append(("wide", tp["wide"], None))
+    if tp.get("sorted_chain") and shard == max(0, nshards - 2):
+        extra.append(("sorted_chain", tp["sorted_chain"], None))
     for kind, a1, a2 in extra:
         if time.time() > deadline:
             if kind == "shape":
@@ -282,13 +298,16 @@ def run_shard(prop, spec, tier, seed, shard, nshards, scratch):
         elif kind == "wide":
             case = wide_case(rng, a1)
             stats["wide_cases_many_webentities"] += 1
+        elif kind == "sorted_chain":
+            case = sorted_chain_case(rng, a1)
+            stats["sorted_chain_cases"] += 1
         else:
             case = soak_case(rng, a1)
             stats["soak_cases"] += 1
         case["id"] = "%s/%s/%s" % (kind, a1, "".join(map(str, a2 or ())))
         ds, feats, digest = run_case(prop, case, spec, scratch, stats)
         res["cases"] += 1
-        if kind in ("soak", "wide"):
+        if kind in ("soak", "wide", "sorted_chain"):
             res["notes"].append("%s case: %s" % (kind, feats))
         if feats and nontrivial(feats):
             res["nontrivial"].append(digest)
